@@ -94,6 +94,46 @@ def correspond(ctx):
                 o_rt.check("ini-float-vary", same, {"op": "ini-vary", "kwds": repr(kw)}, {"exported": c.to_string(), "reloaded": repr(c2.to_dict())}, "the same value and type")
             except Exception as e:  # noqa: BLE001
                 o_rt.check("ini-float-vary", False, {"op": "ini-vary", "kwds": repr(kw)}, errname(e) + ": " + str(e)[:100], "round trip")
+    # ---- typed scheme options through every export/import path: what the configured hasher DOES must survive (INI text carries no types:
+    #      an explicit False, a small integer, an identifier must come back meaning the same)
+    typed = [("des_crypt", "truncate_error", [True, False]), ("bcrypt", "truncate_error", [True, False]), ("bcrypt", "ident", ["2a", "2b", "2y"]),
+             ("sha256_crypt", "salt_size", [0, 1, 8, 16]), ("sha512_crypt", "salt_size", [4]), ("md5_crypt", "salt_size", [0, 8]),
+             ("bcrypt", "rounds", [4, 5]), ("sha256_crypt", "rounds", [1000, 5000])]
+
+    def behaviour(c, scheme, cat):
+        h = c.handler(scheme, category=cat)
+        out = {a: repr(getattr(h, a, None)) for a in ("truncate_error", "default_ident", "default_salt_size", "default_rounds")}
+        try:
+            hs = h.using(**({"rounds": h.min_rounds} if "rounds" in (h.setting_kwds or ()) else {})).hash("x" * 100)
+            out["long-secret"] = "hashed"
+            out["ident"] = hs[:4] if scheme == "bcrypt" else ""
+            out["salt-len"] = len(getattr(h.from_string(hs), "salt", "") or "")
+        except Exception as e:  # noqa: BLE001
+            out["long-secret"] = errname(e)
+        return out
+
+    for scheme, opt, values in typed:
+        for v in values:
+            for key, cat in ((f"{scheme}__{opt}", None), (f"admin__{scheme}__{opt}", "admin")):
+                kw = {"schemes": [scheme, "md5_crypt"] if scheme != "md5_crypt" else ["md5_crypt", "des_crypt"], key: v}
+                inp = {"op": "typed-option", "kwds": repr(kw)}
+                try:
+                    c = CryptContext(**kw)
+                    want = behaviour(c, scheme, cat)
+                except Exception as e:  # noqa: BLE001
+                    o_rt.check("typed-option:construct", False, inp, errname(e) + ": " + str(e)[:100], "a usable context")
+                    continue
+                for how, mk in (("ini", lambda: CryptContext.from_string(c.to_string())), ("dict", lambda: CryptContext(**c.to_dict())), ("copy", c.copy),
+                                ("ini-load", lambda: (lambda c2: (c2.load(c.to_string()), c2)[1])(CryptContext(schemes=["ldap_md5"]))),
+                                ("ini-update", lambda: (lambda c2: (c2.update(c.to_string()), c2)[1])(CryptContext(schemes=[scheme]))),
+                                ("ini-twice", lambda: CryptContext.from_string(CryptContext.from_string(c.to_string()).to_string()))):
+                    try:
+                        c2 = mk()
+                        got = behaviour(c2, scheme, cat)
+                        ok = got == want and c2.to_string() == c.to_string()
+                        o_rt.check("typed-option:" + how, ok, dict(inp, how=how), {"behaviour": got, "string": c2.to_string()[-120:]}, {"behaviour": want})
+                    except Exception as e:  # noqa: BLE001
+                        o_rt.check("typed-option:" + how, False, dict(inp, how=how), errname(e) + ": " + str(e)[:100], "the same behaviour")
     # ---- round trips
     valid = []
     for _ in range(250 if not ctx.thorough else 3000):
